@@ -15,6 +15,21 @@ NumV(t) == [a \in DOMAIN t.num |-> t.num[a]]
 StrV(t) == [a \in DOMAIN t.str |-> t.str[a]]
 NumClauses(t) == [f \in DOMAIN NumFields |-> t.ret.num[f] = Field(P(t), NumV(t), f)]
 BadNum(t) == {f \in DOMAIN NumFields : ~NumClauses(t)[f]}
+\* further fields (present when the harness recorded them)
+NumStr(t) == [a \in DOMAIN t.num |-> t.num[a]]
+BadMore(t) == IF ~Has(t.ret, "more") THEN {}
+              ELSE {f \in MoreFields : t.ret.more[f] # MoreField(P(t), NumV(t), f)}
+                   \cup (IF HasVhea(P(t)) # t.ret.hasVhea THEN {"vhea-presence"}
+                         ELSE IF ~t.ret.hasVhea THEN {} ELSE {f \in VheaFields : t.ret.vhea[f] # VheaField(P(t), NumV(t), f)})
+DirectNameOK(t, key, id) == LET e == DirectName(P(t), StrV(t), key)  k == ToString(id) IN
+                            IF Len(e) = 0 THEN ~Has(t.ret.names, k) ELSE Has(t.ret.names, k) /\ t.ret.names[k] = e
+BadNames(t) == IF ~Has(t.ret, "more") THEN {}
+  ELSE {x \in {<<"n0", 0>>, <<"n7", 7>>, <<"n8", 8>>, <<"n9", 9>>, <<"n10", 10>>, <<"n11", 11>>, <<"n12", 12>>, <<"n13", 13>>,
+               <<"n14", 14>>, <<"n18", 18>>, <<"n19", 19>>, <<"n21", 21>>, <<"n22", 22>>} : ~DirectNameOK(t, x[1], x[2])}
+       \cup (IF Has(t.ret.names, "5") /\ t.ret.names["5"] = VersionString(P(t), NumV(t), StrV(t)) THEN {} ELSE {<<"version", 5>>})
+       \cup (LET ps == IF "postscriptFontName" \in P(t) THEN StrV(t)["postscriptFontName"] ELSE t.ret.names["6"] IN
+             IF Has(t.ret.names, "3") /\ t.ret.names["3"] = UniqueID(P(t), NumV(t), StrV(t), ps) THEN {} ELSE {<<"uniqueID", 3>>})
+       \cup (IF t.ret.vendor = PadTo4(VendorID(P(t), StrV(t))) THEN {} ELSE {<<"vendor", 0>>})
 PB(t) == IF Has(t, "bits") THEN DOMAIN t.bits ELSE {}
 BitV(t) == [a \in PB(t) |-> Rng(t.bits[a])]
 NoDup(s) == \A a, b \in 1..Len(s) : s[a] = s[b] => a = b
@@ -32,6 +47,8 @@ Clauses(t) ==
   << <<"compiles", TRUE>>,
      <<"numeric-fields", BadNum(t) = {}>>,
      <<"bit-list-fields", BadBits(t) = {}>>,
+     <<"further-numeric-fields", BadMore(t) = {}>>,
+     <<"further-name-records", BadNames(t) = {}>>,
      <<"name-1-2-4", NameOK(t, 1) /\ NameOK(t, 2) /\ NameOK(t, 4)>>,
      <<"typographic-names", IF HasTypographicNames(P(t), StrV(t)) THEN NameOK(t, 16) /\ NameOK(t, 17)
                             ELSE ~Has(t.ret.names, "16") /\ ~Has(t.ret.names, "17")>>,
@@ -50,7 +67,7 @@ Init == i = 1
 Next == /\ i <= Len(Traces)
         /\ LET t == Traces[i]  cl == Clauses(t)  bad == {k \in 1..Len(cl) : ~cl[k][2]}
            IN PrintT(<<"VERDICT", t.tid, IF bad = {} THEN "none" ELSE cl[Min(bad)][1], "none",
-                       ToString(IF Has(t.ret, "err") THEN {} ELSE BadNum(t) \cup BadBits(t))>>)
+                       ToString(IF Has(t.ret, "err") THEN {} ELSE BadNum(t) \cup BadBits(t) \cup BadMore(t)) \o ToString(IF Has(t.ret, "err") THEN {} ELSE BadNames(t))>>)
         /\ i' = i + 1
 Spec == Init /\ [][Next]_i
 =============================================================================
